@@ -28,8 +28,9 @@ type DevNet struct {
 	// ShortAnswer, if set, lets the scenario truncate a read reply: it returns the number of registers to send (<=0: all).
 	ShortAnswer func(server string, unit byte, pdu []byte) int
 	// Observed requests (wire monitor)
-	Seen       []SeenReq
-	ASCIIEvery int
+	Seen         []SeenReq
+	ASCIIEvery   int
+	SpecialEvery int
 }
 
 type SeenReq struct {
@@ -51,6 +52,7 @@ func (dn *DevNet) Device(server string, unit byte) *Device {
 	if d == nil {
 		d = NewDevice(Mix(dn.seed, HashString(server), uint64(unit)))
 		d.ASCIIEvery = dn.ASCIIEvery
+		d.SpecialEvery = dn.SpecialEvery
 		dn.devices[key] = d
 	}
 	return d
